@@ -1,6 +1,7 @@
 import Thanos.Common.Parse
 import Thanos.Model.Split
 import Thanos.Model.CacheKey
+import Thanos.Model.ResultsCache
 /-
   Line-protocol driver of the `frontend` family (C41 C42 C43 C44).
   One request per line, one answer per line; every line is self-contained.
@@ -17,6 +18,9 @@ import Thanos.Model.CacheKey
                                                                   -> <hex key A> <hex key B> | panic | invalid
     key.tenant <tenant>                                           -> ok | invalid
     key.should <r|l|s> <dedup> <#storeMatchers> <disabled>        -> 0 | 1
+
+  C42 op (grammar in harness/cmd/frontend/c42.go):
+    cache.hist <align 0|1> <splitMs> <data> <reqs>   -> <resp>|<resp>|…
 -/
 open Thanos Thanos.Parse
 
@@ -146,6 +150,58 @@ def handleC43 : List String → String
 
 end C43
 
+/-! ### C42 -/
+section C42
+open ResultsCache
+
+/-- `lo-hi` -/
+def pInterval (t : String) : Option (Int × Int) :=
+  match splitChar '-' t with
+  | [a, b] => do pure (← parseInt? a, ← parseInt? b)
+  | _ => none
+
+/-- `<id>:<lo>-<hi>+<lo>-<hi>` -/
+def pSeriesData (t : String) : Option (Nat × List (Int × Int)) :=
+  match splitChar ':' t with
+  | [a, b] => do
+    let id ← parseNat? a
+    let ivs ← (listOf '+' b).mapM pInterval
+    if id > 9 then none else pure (id, ivs)
+  | _ => none
+
+def pReq (t : String) : Option Req :=
+  match splitChar ':' t with
+  | [a, b, c] => do
+    let r : Req := ⟨← parseInt? a, ← parseInt? b, ← parseInt? c⟩
+    if r.start < 0 ∨ r.stop < r.start ∨ r.step ≤ 0 ∨ r.start.tmod 1000 ≠ 0 ∨ r.stop.tmod 1000 ≠ 0 ∨ r.step.tmod 1000 ≠ 0
+    then none else pure r
+  | _ => none
+
+/-- the harness's downstream: present inside one of the intervals, value `((t/1000)·(id+1) + id) mod 997` -/
+def mkDown (data : List (Nat × List (Int × Int))) : Down :=
+  { ids := sortLt (fun a b => a < b) (data.map (·.1)),
+    f := fun id t =>
+      match data.find? (·.1 = id) with
+      | some (_, ivs) =>
+        if ivs.any (fun iv => iv.1 ≤ t && t ≤ iv.2) then some (((t.tdiv 1000) * ((id : Int) + 1) + id).tmod 997) else none
+      | none => none }
+
+def showMatrix (m : Matrix) : String :=
+  joinWith ";" (m.map fun s => s!"{s.1}:" ++ joinWith "," (s.2.map fun x => s!"{x.t}={x.v}"))
+
+def handleC42 : List String → String
+  | ["cache.hist", al, sp, data, reqs] =>
+    match pBool al, parseInt? sp, (listOf ';' data).mapM pSeriesData, (listOf ',' reqs).mapM pReq with
+    | some align, some splitMs, some data, some reqs =>
+      if splitMs ≤ 0 ∨ splitMs.tmod 1000 ≠ 0 ∨ reqs.isEmpty ∨ (data.map (·.1)).eraseDups.length ≠ data.length then "bad-op" else
+      "|".intercalate ((history liveCfg (mkDown data) align splitMs [] reqs).map fun
+        | some m => showMatrix m
+        | none => "err")
+    | _, _, _, _ => "bad-op"
+  | _ => "bad-op"
+
+end C42
+
 def handle3 (op a c d : String) : String :=
   if op = "split.nib" then
     match parseInt? a, parseInt? c, parseInt? d with
@@ -177,6 +233,7 @@ def handle : List String → String
         if dur ≤ 0 then "bad-op" else showSplit (Split.splitLabels true start stop dur)
       | _, _, _ => "bad-op"
     else handle3 op a b d
+  | "cache.hist" :: rest => handleC42 ("cache.hist" :: rest)
   | l => handleC43 l
 
 end Thanos.Driver.Frontend
